@@ -150,6 +150,10 @@ func backendProp(b backendSpec, meaning string) propFunc {
 			r.floor("shape.colvec", 5)
 		}
 		if b.Name == "glsl" {
+			r.Clauses = append(r.Clauses, "image coordinates (E49): every function that writes the Coordinate operand of a storage-image access (load, store, atomic) takes the coordinate text from the one function that merges the layer and converts unsigned to signed")
+			c.runImageCoordBuilder(r, "image.coordbuilder", "glsl/internal/codegen")
+			r.floor("image.coordbuilder", 3)
+			r.floor("image.coordHelpers", 1)
 			r.Clauses = append(r.Clauses, builtinDirClause)
 			c.runBuiltinDirection(r, "builtin.direction", inPkgs("glsl"))
 			r.floor("builtin.direction", 2)
